@@ -13,6 +13,9 @@ pub enum MOp {
     Emit,
     Gc,
     Reparse,
+    /// `emit_wasm_file` onto a path that already holds a longer file; the bytes left on disk must be
+    /// exactly what `emit_wasm` returns
+    EmitFile,
 }
 
 pub struct Obj {
@@ -136,10 +139,36 @@ impl<'a> Subject for ModSubject<'a> {
         }
     }
     fn ops(&self, _h: &[MOp]) -> Vec<MOp> {
-        vec![MOp::Emit, MOp::Gc, MOp::Reparse]
+        vec![MOp::Emit, MOp::Gc, MOp::Reparse, MOp::EmitFile]
     }
     fn apply(&self, o: &mut Obj, op: &MOp, _at: usize) -> Result<(), Finding> {
         match op {
+            MOp::EmitFile => {
+                static SERIAL: std::sync::atomic::AtomicUsize = std::sync::atomic::AtomicUsize::new(0);
+                let dir = std::path::Path::new("/verif/work/modhist");
+                let _ = std::fs::create_dir_all(dir);
+                let path = dir.join(format!("{}-{}.wasm", std::process::id(), SERIAL.fetch_add(1, std::sync::atomic::Ordering::SeqCst)));
+                // something longer than any module of the families is already there
+                let _ = std::fs::write(&path, vec![0xEEu8; 70_000]);
+                let res = o.m.emit_wasm_file(&path);
+                o.emits += 1;
+                let on_disk = std::fs::read(&path).unwrap_or_default();
+                let _ = std::fs::remove_file(&path);
+                if let Err(e) = res {
+                    o.findings.push(Finding { sig: "emit-file-failed".into(), detail: format!("{:#}", e) });
+                } else {
+                    self.check_customs(&on_disk, o);
+                    let mem = o.m.emit_wasm();
+                    o.emits += 1;
+                    if self.prop == "C08" && mem != on_disk {
+                        o.findings.push(Finding {
+                            sig: format!("emit-file-differs-from-emit:{}", if on_disk.len() > mem.len() && on_disk.starts_with(&mem) { "stale-tail".to_string() } else { first_diff(&mem, &on_disk) }),
+                            detail: format!("emit_wasm_file left {} bytes on disk, emit_wasm on the same module returns {} bytes", on_disk.len(), mem.len()),
+                        });
+                    }
+                    self.check_customs(&mem, o);
+                }
+            }
             MOp::Emit => {
                 let out = o.m.emit_wasm();
                 o.emits += 1;
@@ -227,6 +256,7 @@ fn hist_of(cfg: &serde_json::Value) -> Vec<MOp> {
                     Some("emit") => Some(MOp::Emit),
                     Some("gc") => Some(MOp::Gc),
                     Some("reparse") => Some(MOp::Reparse),
+                    Some("emit-file") => Some(MOp::EmitFile),
                     _ => None,
                 })
                 .collect()
@@ -234,7 +264,7 @@ fn hist_of(cfg: &serde_json::Value) -> Vec<MOp> {
         .unwrap_or_default()
 }
 fn hist_json(h: &[MOp]) -> serde_json::Value {
-    json!(h.iter().map(|o| match o { MOp::Emit => "emit", MOp::Gc => "gc", MOp::Reparse => "reparse" }).collect::<Vec<_>>())
+    json!(h.iter().map(|o| match o { MOp::Emit => "emit", MOp::Gc => "gc", MOp::Reparse => "reparse", MOp::EmitFile => "emit-file" }).collect::<Vec<_>>())
 }
 
 pub struct CaseOut {
